@@ -102,7 +102,7 @@ async def _harness(ctx, inputs, azure_chunk):
 
 def run(ctx):
     loader.install()
-    max_n = 4 if ctx.quick else 7
+    max_n = 5 if ctx.quick else 9
     chunks = "{1, 2, 5}" if ctx.quick else "{1, 2, 3, 5, 9}"
     consts = {"MaxN": max_n, "Chunks": chunks, "HeaderBug": '"none"'}
     wd = tlc.prepare_dir(ctx.build / "tlc", ["copy"])
@@ -112,9 +112,10 @@ def run(ctx):
 
     # ---- 1. the protocol model (the same TLC run evaluates ASSUME Gen: the input universe, and ASSUME OkIsTight) ---
     (wd / "RR.cfg").write_text(tlc.mk_cfg(spec="Spec", constants=consts,
-                                          invariants=["TypeOK", "ProtocolOk", "HeaderOk", "ServedOk"], properties=["Terminates"]))
+                                          invariants=["TypeOK", "ProtocolOk", "HeaderOk", "ServedOk"],
+                                          properties=[] if ctx.quick else ["Terminates"]))
     res = tlc.run(wd, "RangeReadGen", "RR.cfg", workers=tw, coverage=True, env=env)
-    ctx.add_tlc(res, f"RangeRead protocol model, MaxN={max_n}, Chunks={chunks}: ProtocolOk, HeaderOk, ServedOk, Terminates; ASSUME OkIsTight")
+    ctx.add_tlc(res, f"RangeRead protocol model, MaxN={max_n}, Chunks={chunks}: ProtocolOk, HeaderOk, ServedOk" + ("" if ctx.quick else ", Terminates (liveness)") + "; ASSUME OkIsTight")
     ctx.require_covered(res, ["OpenEmpty", "Request", "Serve", "Open416", "OpenOk", "ReadAll", "ReadChunk", "ReadExactly"])
     for v in res.violations:
         if v.kind == "assumption":
